@@ -2,6 +2,7 @@ package main
 
 import (
 	"fmt"
+	"strings"
 	"go/types"
 	"math/big"
 )
@@ -114,6 +115,34 @@ func (u *Unit) LoadField(s *State, ref Term, owner types.Type, fi int) Val {
 	return v
 }
 
+// escapePtr turns an engine-level pointer into a storable identity. Pointers to heap cells keep their cell
+// identity; the address of a struct field or local becomes an opaque non-nil identity (aliasing between that
+// stored pointer and the field is then not modelled: listed as an assumption).
+func (u *Unit) escapePtr(s *State, v Val) Val {
+	var t Term
+	first := true
+	for i := len(v.P.Alts) - 1; i >= 0; i-- {
+		a := v.P.Alts[i]
+		var id Term
+		switch a.A.Kind {
+		case ACell:
+			id = a.A.Ref
+		case ANil:
+			id = IntLit(0)
+		default:
+			id = u.Fresh("addrof", SInt)
+			u.Assume(And(Gt(id, IntLit(0)), Le(App("root", SInt, id), s.Alloc)))
+			u.Trust("address of a struct field / local stored into the heap: the stored pointer is an opaque non-nil identity (reads and writes through it are not connected to the field)")
+		}
+		if first {
+			t, first = id, false
+		} else {
+			t = Ite(a.Guard, id, t)
+		}
+	}
+	return Val{T: v.T, S: []Term{t}}
+}
+
 // LoadStruct reads a whole struct value from object ref.
 func (u *Unit) LoadStruct(s *State, ref Term, t types.Type) Val {
 	st := structOf(t)
@@ -133,6 +162,9 @@ func (u *Unit) StoreField(s *State, guard Term, ref Term, owner types.Type, fi i
 		return
 	}
 	ls := u.Layout(ft)
+	if v.P != nil {
+		v = u.escapePtr(s, v)
+	}
 	if len(v.S) != len(ls) {
 		panic(fmt.Sprintf("StoreField %s.%s: %d slots for %d", owner, f.Name(), len(v.S), len(ls)))
 	}
@@ -196,6 +228,30 @@ func (u *Unit) LoadAddr(s *State, a Addr) Val {
 	case AGlobal:
 		ls := u.Layout(a.T)
 		v := Val{T: a.T, S: make([]Term, len(ls))}
+		if len(a.Path) == 0 && isSentinel(a) {
+			// package-level error sentinels: constants (non-nil, pairwise distinct, never reassigned)
+			for i, sl := range ls {
+				v.S[i] = u.Declare(globalComp(a.Var, sl.Suffix)+"@const", sl.So)
+			}
+			if _, done := u.sentinels[a.Var]; !done {
+				u.Trust("package-level error sentinels (Err*, io.EOF) are non-nil, pairwise distinct and never reassigned")
+				u.Assume(Neq(v.S[0], IntLit(0)))
+				u.Assume(Gt(v.S[0], IntLit(0)))
+				if len(v.S) == 1 {
+					// pointer-typed sentinel (e.g. codes.ErrProtocol): an object that exists from the start
+					u.Assume(Le(App("root", SInt, v.S[0]), u.epochAlloc[0]))
+				}
+				for _, o2 := range u.sentinels {
+					if len(o2.S) == len(v.S) && len(v.S) == 2 {
+						u.Assume(Or(Neq(v.S[0], o2.S[0]), Neq(v.S[1], o2.S[1])))
+					} else if len(o2.S) == len(v.S) {
+						u.Assume(Neq(v.S[0], o2.S[0]))
+					}
+				}
+				u.sentinels[a.Var] = v
+			}
+			return v
+		}
 		for i, sl := range ls {
 			name := globalComp(a.Var, sl.Suffix)
 			if t, ok := s.Heap[name]; ok {
@@ -290,6 +346,17 @@ func (u *Unit) StoreAddr(s *State, guard Term, a Addr, v Val) {
 	default:
 		panic("StoreAddr: bad kind")
 	}
+}
+
+func isSentinel(a Addr) bool {
+	if k := classify(a.T); k != KIface && k != KPtrStruct {
+		return false
+	}
+	name := a.Var
+	if i := strings.LastIndex(name, "."); i >= 0 {
+		name = name[i+1:]
+	}
+	return strings.HasPrefix(name, "Err") || name == "EOF"
 }
 
 // LoadPtr reads through a guarded pointer.
